@@ -287,8 +287,24 @@ def _try_inline(func: ast.AST, name: str, defs: dict) -> bool:
             if isinstance(s, (ast.For, ast.While)) and any(id(u) in {id(n) for n in ast.walk(s)} for u in uses) and any(isinstance(n, ast.Name) and isinstance(n.ctx, ast.Store) and n.id in free for n in ast.walk(s)):
                 return False
     else:
-        # an expression with calls: only when it is used once, in the very next statement, outside any loop of it
-        if len(uses) != 1 or last != 0 or isinstance(span[0], (ast.For, ast.While, ast.AsyncFor)) and id(uses[0]) not in {id(n) for n in ast.walk(span[0].iter if hasattr(span[0], "iter") else span[0].test)}:
+        # an expression with calls: only when it is used once, after statements that neither call anything nor store
+        # into attributes/items (so that moving the evaluation down cannot change what it sees), outside any loop
+        if len(uses) != 1:
+            return False
+        for s in span[:-1]:
+            if any(isinstance(n, (ast.Call, ast.Await, ast.Yield, ast.YieldFrom)) for n in ast.walk(s)) or any(isinstance(n, (ast.Attribute, ast.Subscript)) and isinstance(n.ctx, (ast.Store, ast.Del)) for n in ast.walk(s)) or isinstance(s, (ast.For, ast.While, ast.If, ast.Try, ast.With, ast.Return, ast.Raise)):
+                return False
+            if any(isinstance(n, ast.Name) and isinstance(n.ctx, ast.Store) and n.id in free for n in ast.walk(s)):
+                return False
+        tail = span[-1]
+        if isinstance(tail, (ast.For, ast.While, ast.AsyncFor)):
+            head = tail.iter if hasattr(tail, "iter") else tail.test
+            if id(uses[0]) not in {id(n) for n in ast.walk(head)}:
+                return False
+        elif isinstance(tail, (ast.If,)):
+            if id(uses[0]) not in {id(n) for n in ast.walk(tail.test)}:
+                return False
+        elif isinstance(tail, (ast.Try, ast.With)):
             return False
     # replace
     class R(ast.NodeTransformer):
